@@ -1963,7 +1963,19 @@ class Machine:
                 if c is False:
                     raise PathEnd("infeasible")
             elif k == "copy_nonoverlapping":
-                raise Unsupported("copy_nonoverlapping")
+                # element-wise copy between two Vec/array/slice containers (value level)
+                from .summaries import elem_ptr_items
+                n = self.index_value(self.operand(fr, s[3]))
+                if n:
+                    items = list(elem_ptr_items(self, self.operand(fr, s[1]), n))
+                    dp = self.unwrap_ptr(self.operand(fr, s[2]))
+                    if not isinstance(dp, Ptr) or not dp.path:
+                        raise Unsupported("copy_nonoverlapping: destination %r" % (dp,))
+                    cont = self.read_loc(Loc(dp.cell, dp.path[:-1]))
+                    i = dp.path[-1]
+                    if not isinstance(cont, VecVal) or isinstance(cont, ByteArr) or not isinstance(i, int) or i + n > len(cont.items):
+                        raise Unsupported("copy_nonoverlapping: destination container %r" % (type(cont).__name__,))
+                    cont.items[i:i + n] = items
             else:
                 raise Unsupported("statement " + k)
         t = blk["t"]
